@@ -138,7 +138,7 @@ func (c *CheckRun) runLeg(arch string, gen func(*CheckRun) []*Scenario, prefix s
 	budget := envInt("VERIF_BUDGET_S", 0)
 	if budget == 0 {
 		if tier == "quick" {
-			budget = 900
+			budget = 2400 // the slowest quick tier (C03) takes ~200 s alone on 16 cores, ~460 s next to another full-load run
 		} else {
 			budget = 6 * 3600
 		}
